@@ -358,7 +358,7 @@ func checkC02(w *World, r *Report) {
 		r.Unknown("C02.R6", "lta", "typestate engine", "-", "actor.process not found")
 		return
 	}
-	lta.export(r, "C02.R6", []string{"delivery-concurrent-with-worker", "inbox-started-after-cleanup"}, "no delivery on the spawning goroutine once the inbox is open; no inbox restart after cleanup")
+	lta.export(r, "C02.R6", []string{"delivery-concurrent-with-worker", "inbox-started-after-cleanup", "inbox-reopened-by-worker"}, "no delivery on the spawning goroutine once the inbox is open; no inbox restart after cleanup")
 }
 
 // checkLoopStatus: the worker loop re-reads the status word before every batch and leaves when
@@ -587,6 +587,11 @@ func checkC03(w *World, r *Report) {
 		}
 	}
 
+	// R6: Len() is what the re-check reads: its accounting must be sound under concurrency
+	if r.Prop == "C03" {
+		r.Rule("C03.R6", "the ring's length accounting and locking are sound (C14.R1-R3): Len() never under-reports a pushed element", 8)
+		importRules(w, r, checkC14, "C14", "C03.R6", func(o *Obligation) bool { return o.Rule == "C14.R1" || o.Rule == "C14.R2" || o.Rule == "C14.R3" })
+	}
 	// R5
 	if push == nil {
 		r.Unknown("C03.R5", "RingBuffer.Push:len", "Push increments len", "-", "RingBuffer.Push not found")
